@@ -81,7 +81,7 @@ fn judge(env: &Env, case: &Case, excl: &std::cell::Cell<u64>, info: &mut CaseInf
     }
     info.class(format!("keep={}", keep));
     info.class(if case.via_file { "via=file" } else { "via=cli" });
-    let judge_retention = keep != 0 || case.known;
+    let judge_retention = keep != 0 || case.known || !is_listed_known("C14", KEY_ZERO);
     let history = SharedHistory::from_config(&config);
     let mut tracker = Tracker::new();
     let mut expected: u32 = 0;
